@@ -160,6 +160,11 @@ jobs:
           in1: x
           in2: y
       - run: echo ${{ steps.la.outputs.out1 }} ${{ steps.la.outputs.nope }}
+  before:
+    needs: call
+    runs-on: ubuntu-latest
+    steps:
+      - run: echo ${{ needs.call.outputs.out1 }} ${{ needs.call.outputs.nope }}
   call:
     uses: ./.github/workflows/callee.yml
     with:
